@@ -36,7 +36,14 @@ def gen(r):
         if r.random() < 0.5:
             script = ["ack"] * 12
         special = r.choice([None, None, "reregister", "deregister", "unrelated", "icmp", "rst-now"])
-        observers.append({"type": typ, "script": script, "ack_delay": r.choice([0.0, 0.0, 0.3, 2.5]), "special": special, "special_at": r.uniform(0.5, 12.0), "t_reg": r.choice([0.0, 0.0, 0.2, 3.0])})
+        t_reg = r.choice([0.0, 0.0, 0.2, 3.0])
+        # what the registration's FIRST rendering does: nothing special, take 1.5 s, fail (renderable error, plain
+        # exception, unsuccessful response) at once or after 1.5 s
+        first = r.choice(["normal"] * 6 + ["slow", "slow", "raise", "raise-plain", "error", "slow-raise"])
+        special_at = r.uniform(0.5, 12.0)
+        if first.startswith("slow") and special and r.random() < 0.7:
+            special_at = t_reg + r.choice([0.3, 0.7, 1.2])  # the special event lands inside the first rendering
+        observers.append({"type": typ, "script": script, "ack_delay": r.choice([0.0, 0.0, 0.3, 2.5]), "special": special, "special_at": special_at, "t_reg": t_reg, "first": first})
     triggers = []
     t = 1.0
     render_delay = r.choice([0.0, 0.0, 0.0, 0.004, 0.02, 0.3])
@@ -58,7 +65,18 @@ def gen(r):
         prev_special = kind != "update"
     # a rendering that takes time (the handler reads its state, then awaits something): state changes can land
     # while a notification is being rendered and must still lead to a notification carrying them
-    return {"observers": observers, "triggers": triggers, "shutdown_at": t + r.choice([20.0, 150.0]), "render_delay": render_delay}
+    shutdown_at = t + r.choice([20.0, 150.0])
+    slow = [o for o in observers if o["first"].startswith("slow")]
+    if slow:
+        # (like with slow renderings in general: an unsuccessful / last trigger is only processed once the
+        # rendering under way is done, so its instant is not the registration's end)
+        for tr in triggers:
+            tr["kind"] = "update"
+    if slow and r.random() < 0.15:
+        late = r.choice(slow)
+        late["t_reg"] = shutdown_at - 0.7  # the context shuts down while this first rendering is under way
+        late["special"] = None
+    return {"observers": observers, "triggers": triggers, "shutdown_at": shutdown_at, "render_delay": render_delay}
 
 
 def run_history(h, seed, rep, case):
@@ -94,6 +112,7 @@ def run_history(h, seed, rep, case):
                 self.version = 0
                 self.rids = {}
                 self.nrid = 0
+                self.first_done = set()
 
             async def add_observation(self, request, serverobservation):
                 self.nrid += 1
@@ -110,6 +129,20 @@ def run_history(h, seed, rep, case):
                 rid = self.rids.get(id(request), 0)
                 ver = self.version  # the state is read first ...
                 rlog.append({"ev": "render", "rid": rid, "ver": ver, "t": loop.time(), "seq": len(net.log)})
+                if rid and rid not in self.first_done:
+                    self.first_done.add(rid)
+                    idx = bytes(request.token)[0] - 0xA0 if request.token else -1
+                    fb = h["observers"][idx].get("first", "normal") if 0 <= idx < len(h["observers"]) else "normal"
+                    rep.count("first_render_" + fb)
+                    if fb.startswith("slow"):
+                        await asyncio.sleep(1.5)
+                    if fb in ("raise", "raise-plain", "error", "slow-raise"):
+                        rlog.append({"ev": "first-fail", "rid": rid, "t": loop.time(), "seq": len(net.log)})
+                        if fb == "error":
+                            return aiocoap.Message(code=aiocoap.NOT_FOUND, payload=b"nothing here")
+                        if fb == "raise-plain":
+                            raise RuntimeError("first rendering failed")
+                        raise aiocoap.error.NotFound("first rendering failed")
                 if h.get("render_delay"):
                     await asyncio.sleep(h["render_delay"])  # ... then the handler takes its time
                 return aiocoap.Message(payload=b"rid=%d;ver=%d" % (rid, ver))
@@ -250,6 +283,10 @@ def judge(h, box, res, rep, case):
             if pl.startswith(b"rid="):
                 rid = int(pl[4 : pl.index(b";")])
             notifs.setdefault((e.dst, e.msg.token), []).append(e)
+    first_seq = {}
+    for es in notifs.values():
+        for e in es:
+            first_seq.setdefault((e.dst, e.msg.mid), e.seq)
     for reg in regs:
         rid = reg["rid"]
         dst, tok = reg["remote"], reg["token"]
@@ -260,6 +297,8 @@ def judge(h, box, res, rep, case):
         mine = []
         seen_mids = set()
         for e in mine_all:
+            if first_seq.get((e.dst, e.msg.mid), e.seq) < reg["seq"]:
+                continue  # a retransmission of something first sent before this registration existed
             pl = e.msg.payload
             stamped = pl.startswith(b"rid=")
             if stamped and not pl.startswith(b"rid=%d;" % rid):
@@ -304,6 +343,13 @@ def judge(h, box, res, rep, case):
                     causes.append((e.t, e.seq, "new-request-on-token", e.t, e.seq))
             if e.kind == "error" and e.dst == S and e.src == dst:
                 causes.append((e.t, e.seq, "transport-error", e.t, e.seq))
+        for ff in rlog:
+            if ff["ev"] == "first-fail" and ff["rid"] == rid:
+                # the first rendering failed: the registration that add_observation() accepted ends with the
+                # unsuccessful first response
+                # (the unsuccessful response itself may wait behind an unacknowledged message to that endpoint)
+                term = [e for e in mine if e.seq >= ff["seq"] and not (64 <= e.msg.code < 96)]
+                causes.append((ff["t"], ff["seq"], "first-response-unsuccessful", term[0].t if term else ff["t"], term[0].seq if term else ff["seq"]))
         for tr in triggers:
             if tr["seq"] >= reg["seq"] and tr["li"] > reg["li"] and tr["kind"] in ("unsuccessful", "last") and tr["t"] > reg["t"] - 1e-12:
                 term = [e for e in mine if e.seq >= tr["seq"] and (not (64 <= e.msg.code < 96) or b";lastmsg;" in e.msg.payload)]
